@@ -12,6 +12,25 @@ from . import ast as A
 from .algebra import Translator, Unconvertible, STD_FUNCS, literal
 from .compdb import AnalysisBroken
 
+PROGRAM = None          # set by facts.load_program: lets the scanner look into helper functions it meets
+_RULE_VOCAB = None
+
+
+def _rule_vocabulary():
+    """identifiers the rule files mention: functions named there are modelled by the rules themselves and are not inlined"""
+    global _RULE_VOCAB
+    if _RULE_VOCAB is None:
+        import glob
+        import os
+        import re
+        here = os.path.dirname(os.path.abspath(__file__))
+        words = set()
+        for f in glob.glob(os.path.join(here, "*.py")) + glob.glob(os.path.join(here, "rules", "*.py")):
+            words |= set(re.findall(r"[A-Za-z_]\w*", open(f).read()))
+        _RULE_VOCAB = words
+    return _RULE_VOCAB
+
+
 frac = sp.Function("frac")
 ipart = sp.Function("ipart")
 
@@ -72,6 +91,11 @@ def _count_assignments(fn):
     return cnt
 
 
+def _is_lref(t):
+    t = (t or "").strip()
+    return t.endswith("&") and not t.endswith("&&")
+
+
 def _is_ptr(t):
     import re
     return bool(re.search(r"\*\s*(const)?\s*$", t or ""))
@@ -93,6 +117,11 @@ class Scanner:
         self.in_loop_decls = set()
         self._seen_calls = set()
         self.ptr_alias = {}        # local pointer decl -> (array text, offset): T* p = &a[e]
+        self.ref_alias = {}        # local reference decl -> (base, idx, path): T& r = a[e] / obj.field
+        self.inline_value = {}     # call node id -> value of an inlined helper call
+        self.inlined = []          # (call node, callee name) of the helper calls that were looked into
+        self._inline_depth = 0
+        self.lambdas = {}          # local decl -> LambdaExpr node
         self.range_alias = {}      # reference loop variable of a range-for over a container -> container text
         # aggregate types whose brace-initialised assignment is split into per-field stores
         # (field order is asserted against the class facts by the rules that rely on it)
@@ -118,6 +147,13 @@ class Scanner:
 
     def _hook(self, n, tr):
         k = n["k"]
+        if n.get("id") in self.inline_value:
+            return self.inline_value[n["id"]]
+        if k in ("CallExpr", "CXXMemberCallExpr", "CXXOperatorCallExpr") and n.get("id") not in self._seen_calls and self._inline_target(n) is not None:
+            # a helper call met during translation before its statement was scanned
+            self._call(n)
+            if n["id"] in self.inline_value:
+                return self.inline_value[n["id"]]
         if k == "MemberExpr" and n.get("c") and not A.is_this(n["c"][0]):
             oty = (A.strip(n["c"][0], casts=False).get("ctype") or "").replace("const ", "").strip()
             if oty in ("vfps::SourceMap::hi", "hi"):
@@ -292,7 +328,8 @@ class Scanner:
                 A.strip(n["c"][0], casts=False)["k"] in ("ArraySubscriptExpr", "CXXOperatorCallExpr", "MemberExpr",
                                                          "DeclRefExpr"):
             inner = A.strip(n["c"][0], casts=False)
-            if inner["k"] == "DeclRefExpr" or (inner["k"] == "MemberExpr" and n.get("arrow")):
+            if (inner["k"] == "DeclRefExpr" and inner.get("decl") not in self.ref_alias and inner.get("decl") not in self.range_alias) or \
+                    (inner["k"] == "MemberExpr" and n.get("arrow")):
                 break
             path = "." + n["member"]["name"] + path
             n = inner
@@ -305,18 +342,42 @@ class Scanner:
         if n["k"] == "DeclRefExpr" and n["decl"] in self.range_alias:
             cont, sym = self.range_alias[n["decl"]]
             return cont, (sym,), path, n
+        if n["k"] == "DeclRefExpr" and n["decl"] in self.ref_alias:
+            b_, i_, p_ = self.ref_alias[n["decl"]]
+            return b_, i_, p_ + path, n
         return A.show(n).replace(" ", ""), None, path, n
 
-    def _loads(self, n, skip=None):
+    def _loads(self, n, skip=None, skip_outer_element=False):
         """record array reads in expression n"""
         if n is None:
             return
         stack = [n]
+        first_elem = skip_outer_element
         while stack:
             x = stack.pop()
             if skip is not None and x is skip:
                 continue
             k = x["k"]
+            if k == "DeclRefExpr" and x.get("decl") in self.ref_alias:
+                b_, i_, p_ = self.ref_alias[x["decl"]]
+                g, l = self._ctx()
+                self.accesses.append(Access("load", b_, i_, p_, x, x["line"], g, l))
+                continue
+            if first_elem and (k == "ArraySubscriptExpr" or (k == "CXXOperatorCallExpr" and x.get("op") == "[]")):
+                # binding a reference to the element reads the index expressions only
+                first_elem = False
+                cur = x
+                while True:
+                    c = A.strip(cur, casts=False)
+                    if c["k"] == "ArraySubscriptExpr":
+                        stack.append(c["c"][1]); cur = c["c"][0]
+                    elif c["k"] == "CXXOperatorCallExpr" and c.get("op") == "[]":
+                        stack.append(c["args"][1]); cur = c["args"][0]
+                    else:
+                        if c["k"] not in ("DeclRefExpr", "MemberExpr"):
+                            stack.append(c)
+                        break
+                continue
             if k == "UnaryOperator" and x.get("op") == "&":
                 t = A.strip(x["c"][0], casts=False)
                 if t["k"] == "ArraySubscriptExpr":
@@ -359,6 +420,94 @@ class Scanner:
         args = [self._try(a) for a in x.get("args", [])]
         self.calls.append(Call(x.get("callee"), x, args, x.get("args", []), A.call_object(x), x["line"], g, l,
                                x.get("callee_sig")))
+        self._inline(x)
+
+    # -- looking into helper functions and lambdas ----------------------------
+    def _inline_target(self, x):
+        """-> (name, params, body, arg nodes) of a helper this call can be replaced by, or None"""
+        k = x["k"]
+        if k == "CXXOperatorCallExpr" and x.get("op") == "()" and x.get("args"):
+            d = A.declref(x["args"][0])
+            if d is not None and d["decl"] in self.lambdas:
+                lam = self.lambdas[d["decl"]]
+                if lam.get("body") is not None and lam.get("params") is not None:
+                    return ("lambda " + d["name"], lam["params"], lam["body"], x["args"][1:])
+            return None
+        if k not in ("CallExpr", "CXXMemberCallExpr") or PROGRAM is None:
+            return None
+        if not x.get("callee_in_root") or x.get("callee_virtual") or not x.get("callee_sig"):
+            return None
+        short = (x.get("callee") or "").split("::")[-1]
+        if short in _rule_vocabulary():
+            return None
+        if k == "CXXMemberCallExpr":
+            o = A.call_object(x)
+            if o is not None and not A.is_this(o):
+                return None
+        f = PROGRAM.copies.get((x["callee_sig"], self.fn.get("unit")))
+        if f is None or not f.get("body") or f is self.fn or f.get("kind") in ("ctor", "dtor"):
+            return None
+        if len(f["params"]) < len(x.get("args", [])):
+            return None
+        return (x["callee"], f["params"], f["body"], x.get("args", []))
+
+    def _inline(self, x):
+        if self._inline_depth >= 3:
+            return
+        tgt = self._inline_target(x)
+        if tgt is None:
+            return
+        name, params, body, args = tgt
+        if len(args) < len([p for p in params]):
+            # default arguments are not followed
+            if len(args) != len(params):
+                return
+        saved_assigned = dict(self.assigned)
+        sub = _count_assignments({"body": body})
+        for k_, v_ in sub.items():
+            self.assigned[k_] = self.assigned.get(k_, 0) + v_
+        for p_, a_ in zip(params, args):
+            self.locals[p_["decl"]] = dict(p_, k="ParmVarDecl", init=a_)
+            if _is_lref(p_.get("type")) or _is_lref(p_.get("ctype")):
+                tgt_ = A.strip(a_, casts=False)
+                try:
+                    b_, i_, pth_, _n = self._lvalue(tgt_)
+                except Exception:
+                    b_, i_, pth_ = None, None, ""
+                if b_ is not None and i_ is not None:
+                    self.ref_alias[p_["decl"]] = (b_, i_, pth_)
+                v = self._try(a_)
+                if v is not None:
+                    self.tr.bind(p_["decl"], v)
+                else:
+                    self.tr.bind(p_["decl"], sp.Symbol(A.show(A.strip(a_)).replace(" ", ""), real=True))
+                continue
+            if _is_ptr(p_.get("ctype") or p_.get("type")):
+                pa = self._pointer_into(a_)
+                if pa is not None:
+                    self.ptr_alias[p_["decl"]] = pa
+                    continue
+            if sub.get(p_["decl"], 0) == 0:
+                v = self._try(a_)
+                if v is not None:
+                    self.tr.bind(p_["decl"], v)
+        saved_returns, self.returns = self.returns, []
+        self._inline_depth += 1
+        try:
+            self.stmt(body)
+        finally:
+            self._inline_depth -= 1
+        rets, self.returns = self.returns, saved_returns
+        self.inlined.append((x, name))
+        with_value = [r for r in rets if r[0].get("c")]
+        if len(with_value) == 1 and len(rets) == 1:
+            v = self._try(with_value[0][0]["c"][0])
+            if v is not None:
+                self.inline_value[x["id"]] = v
+        merged = dict(saved_assigned)
+        for k_ in sub:
+            merged[k_] = self.assigned[k_]
+        self.assigned = merged
 
     # -- statements ----------------------------------------------------------
     def expr_stmt(self, s):
@@ -444,23 +593,40 @@ class Scanner:
             return
         k = s["k"]
         if k == "CompoundStmt":
-            for c in s.get("c", []):
-                self.stmt(c)
+            self._compound(s.get("c", []))
         elif k == "DeclStmt":
             for d in s["decls"]:
                 if d.get("k") != "VarDecl":
                     continue
                 self.locals[d["decl"]] = d
+                if "init" in d:
+                    lam = A.strip(d["init"], casts=False)
+                    while lam.get("k") in ("CXXConstructExpr", "MaterializeTemporaryExpr", "ExprWithCleanups", "CXXBindTemporaryExpr", "ImplicitCastExpr") and \
+                            len(lam.get("args", lam.get("c", []))) == 1:
+                        lam = A.strip((lam.get("args") or lam.get("c"))[0], casts=False)
+                    if lam.get("k") == "LambdaExpr":
+                        self.lambdas[d["decl"]] = lam
+                        continue
                 if "init" in d and _is_ptr(d.get("ctype") or d.get("type")) and self.assigned.get(d["decl"], 0) == 0:
                     # pointer into an array: T* p = &a[e]  or  T* p = a + e   ->  p[i] is a[e + i]
                     pa = self._pointer_into(d["init"])
                     if pa is not None:
                         self.ptr_alias[d["decl"]] = pa
+                is_ref = _is_lref(d.get("type")) or _is_lref(d.get("ctype"))
+                if "init" in d and is_ref:
+                    # reference to an array element or field: reads and writes through it are accesses of that element
+                    tgt = A.strip(d["init"], casts=False)
+                    while tgt.get("k") in ("MaterializeTemporaryExpr", "ImplicitCastExpr", "ExprWithCleanups") and tgt.get("c"):
+                        tgt = A.strip(tgt["c"][0], casts=False)
+                    if tgt.get("k") in ("ArraySubscriptExpr", "MemberExpr", "DeclRefExpr") or (tgt.get("k") == "CXXOperatorCallExpr" and tgt.get("op") == "[]"):
+                        b_, i_, p_, _n = self._lvalue(tgt)
+                        if i_ is not None:
+                            self.ref_alias[d["decl"]] = (b_, i_, p_)
                 if "init" in d:
-                    self._loads(d["init"])
+                    self._loads(d["init"], skip_outer_element=d["decl"] in self.ref_alias)
                     v = self._try(d["init"])
                     self._modf_out(d["init"])
-                    if self.assigned.get(d["decl"], 0) == 0 and v is not None:
+                    if (self.assigned.get(d["decl"], 0) == 0 or d["decl"] in self.ref_alias) and v is not None:
                         self.tr.bind(d["decl"], v)
                     g, l = self._ctx()
                     self.accesses.append(Access("store", d["name"], None, "", s, s["line"], g, l, "=",
@@ -478,14 +644,17 @@ class Scanner:
             lo = self._try(h["lo"])
             hi = self._try(h["hi"])
             self._loads(h["hi"])
-            sym = sp.Symbol(h["name"], integer=True)
+            name = self._loop_name(h["name"], lo, hi, h["cmp"])
+            sym = sp.Symbol(name, integer=True)
             # distinguish equally named loop variables of different loops by decl id when clashing
-            if any(L.name == h["name"] for L in self.loops):
-                sym = sp.Symbol("%s_%d" % (h["name"], h["decl"]), integer=True)
+            if any(L.name == name for L in self.loops):
+                sym = sp.Symbol("%s_%d" % (name, h["decl"]), integer=True)
             self.tr.bind(h["decl"], sym)
-            self.loops.append(Loop(h["name"], h["decl"], sym, lo, hi, h["cmp"], h["step"], s))
+            self.loops.append(Loop(name, h["decl"], sym, lo, hi, h["cmp"], h["step"], s))
+            mark = (len(self.accesses), len(self.calls))
             self.stmt(s.get("body"))
-            self.loops.pop()
+            L_ = self.loops.pop()
+            self._bulk_from_loop(L_, mark, s.get("body"))
         elif k == "CXXForRangeStmt":
             lv = s["loopvar"]
             sym = sp.Symbol(lv["name"], real=True)
@@ -496,6 +665,21 @@ class Scanner:
             self.loops.append(Loop(lv["name"], lv["decl"], sym, None, None, "range", 1, s))
             self.stmt(s.get("body"))
             self.loops.pop()
+        elif k == "WhileStmt" and self._while_header(s) is not None:
+            h = self._while_header(s)
+            lo = h["lo"]
+            hi = self._try(h["hi"])
+            self._loads(h["hi"])
+            name = self._loop_name(h["name"], lo, hi, h["cmp"])
+            sym = sp.Symbol(name, integer=True)
+            if any(L.name == name for L in self.loops):
+                sym = sp.Symbol("%s_%d" % (name, h["decl"]), integer=True)
+            self.tr.bind(h["decl"], sym)
+            self.loops.append(Loop(name, h["decl"], sym, lo, hi, h["cmp"], 1, s))
+            mark = (len(self.accesses), len(self.calls))
+            self._compound(h["body"])
+            L_ = self.loops.pop()
+            self._bulk_from_loop(L_, mark, {"k": "CompoundStmt", "c": h["body"]})
         elif k in ("WhileStmt", "DoStmt"):
             self._loads(s.get("cond"))
             self.loops.append(Loop("<while>", None, None, None, None, "while", None, s))
@@ -507,7 +691,12 @@ class Scanner:
             if s.get("init"):
                 self.stmt(s["init"])
             self._loads(s.get("cond"))
-            self.guards.append((s["cond"], True))
+            ec = self._eq_const(s["cond"])
+            if ec is not None:
+                # `if (e == CONST)` selects like `switch (e) { case CONST: }`: same guard form for both spellings
+                self.guards.append(({"k": "SwitchCase", "cond": ec[0], "labels": [ec[1]], "line": s["line"], "id": -s["id"], "from_if": s["cond"]}, True))
+            else:
+                self.guards.append((s["cond"], True))
             self.stmt(s.get("then"))
             self.guards.pop()
             if s.get("else"):
@@ -543,6 +732,164 @@ class Scanner:
         else:
             self.expr_stmt(s)
 
+    def _ptr_of(self, acc):
+        """pointer expression that denotes element 0 of the array an access goes to (as the translator would spell `p` / `v.data()`)"""
+        n = acc.base_node if acc.kind == "store" else acc.node
+        cur = n
+        while cur is not None:
+            c = A.strip(cur, casts=False)
+            if c["k"] == "ArraySubscriptExpr":
+                cur = c["c"][0]
+            elif c["k"] == "CXXOperatorCallExpr" and c.get("op") == "[]":
+                cur = c["args"][0]
+            else:
+                break
+        if cur is None:
+            return None
+        b = A.strip(cur)
+        ty = (b.get("ctype") or "")
+        v = self._try(b)
+        if v is None:
+            v = sp.Symbol(A.show(b).replace(" ", ""), real=True)
+        if "std::vector" in ty or "std::array" in ty or "multi_array" in ty:
+            return sp.Function("data")(v)
+        return v
+
+    def _bulk_from_loop(self, L, mark, body):
+        """`for (i = lo; i < hi; i++) dst[a+i] = src[b+i];` is std::copy_n(src+b+lo, hi-lo, dst+a+lo) (likewise fill_n): record the
+        equivalent call so that rules see one form for both spellings"""
+        if L.sym is None or L.lo is None or L.hi is None or L.cmp != "<" or L.step != 1:
+            return
+        acc = self.accesses[mark[0]:]
+        calls = self.calls[mark[1]:]
+        stores = [a for a in acc if a.kind == "store" and not (a.idx is None and a.base in [d_.get("name") for d_ in self.locals.values()])]
+        if len(stores) != 1 or calls:
+            return
+        st = stores[0]
+        if st.idx is None or len(st.idx) != 1 or st.op != "=" or st.path or st.value is None or st.loops[-1:] != [L] or len(st.guards) != len(self.guards):
+            return
+        di = sp.expand(st.idx[0])
+        if sp.expand(di.coeff(L.sym, 1) - 1) != 0 or sp.expand(di - L.sym).has(L.sym):
+            return
+        # statements of the body: only declarations of single-use locals and the store itself
+        n_stmts = [x for x in (body.get("c", []) if body and body.get("k") == "CompoundStmt" else [body]) if x is not None and x.get("k") not in ("NullStmt",)]
+        if any(x.get("k") not in ("DeclStmt",) and A.strip(x, casts=False).get("id") != st.node.get("id") for x in n_stmts):
+            return
+        dptr = self._ptr_of(st)
+        if dptr is None:
+            return
+        dst = sp.expand(dptr + (di - L.sym) + L.lo)
+        length = sp.expand(L.hi - L.lo)
+        g, l = self._ctx()
+        v = st.value
+        if isinstance(v, sp.Indexed) and len(v.indices) == 1 and sp.expand(sp.expand(v.indices[0]).coeff(L.sym, 1) - 1) == 0:
+            loads = [a for a in acc if a.kind == "load" and a.idx is not None and len(a.idx) == 1 and a.base == str(v.base) and sp.expand(a.idx[0] - v.indices[0]) == 0]
+            if not loads:
+                return
+            sptr = self._ptr_of(loads[0])
+            if sptr is None:
+                return
+            src = sp.expand(sptr + (sp.expand(v.indices[0]) - L.sym) + L.lo)
+            c = Call("std::copy_n", L.node, [src, length, dst], [None, None, None], None, st.line, g, l, "std::copy_n(loop)")
+            c.synth = True
+            self.calls.append(c)
+        elif not v.has(L.sym):
+            c = Call("std::fill_n", L.node, [dst, length, v], [None, None, None], None, st.line, g, l, "std::fill_n(loop)")
+            c.synth = True
+            self.calls.append(c)
+
+    def _eq_const(self, cond):
+        c = A.strip(cond)
+        if c.get("k") != "BinaryOperator" or c.get("op") != "==":
+            return None
+        l, r = A.strip(c["c"][0]), A.strip(c["c"][1])
+
+        def const_of(n_):
+            if n_.get("k") == "DeclRefExpr" and n_.get("dkind") == "EnumConstant":
+                return n_.get("enumval")
+            return None
+        for e_, k_ in ((l, r), (r, l)):
+            v = const_of(k_)
+            if v is not None and const_of(e_) is None and ("enum" in (e_.get("ctype") or "") or "::" in (e_.get("type") or "")):
+                return e_, v
+        return None
+
+    BUNCH_COUNTS = ("PhaseSpace_nb", "_nbunches", "nb")
+
+    def _loop_name(self, name, lo, hi, cmp):
+        """the loop over all bunches is called n whatever its variable is called in the source (the rules speak of 'the bunch loop')"""
+        if lo == 0 and cmp == "<" and hi is not None and str(hi) in self.BUNCH_COUNTS:
+            if name != "n" and not any(L.name == "n" for L in self.loops):
+                return "n"
+        return name
+
+    def _always_exits(self, st):
+        """does control never fall out of the end of statement st (continue / break / return / throw at its end)?"""
+        if st is None:
+            return False
+        k = st.get("k")
+        if k in ("ContinueStmt", "BreakStmt", "ReturnStmt", "CXXThrowExpr"):
+            return True
+        if k == "ExprWithCleanups" and st.get("c"):
+            return self._always_exits(st["c"][0])
+        if k == "CompoundStmt":
+            c = st.get("c", [])
+            return bool(c) and self._always_exits(c[-1])
+        if k == "IfStmt":
+            return bool(st.get("else")) and self._always_exits(st.get("then")) and self._always_exits(st.get("else"))
+        return False
+
+    def _compound(self, stmts):
+        """statements of one block; after `if (c) { ...; continue/return; }` the rest of the block runs under !c"""
+        pushed = 0
+        for c in stmts:
+            self.stmt(c)
+            if c.get("k") == "IfStmt" and not c.get("init"):
+                if not c.get("else") and self._always_exits(c.get("then")):
+                    self.guards.append((c["cond"], False)); pushed += 1
+                elif c.get("else") and self._always_exits(c.get("then")) and not self._always_exits(c.get("else")):
+                    self.guards.append((c["cond"], False)); pushed += 1
+                elif c.get("else") and self._always_exits(c.get("else")) and not self._always_exits(c.get("then")):
+                    self.guards.append((c["cond"], True)); pushed += 1
+        for _ in range(pushed):
+            self.guards.pop()
+
+    def _while_header(self, s):
+        """`T i = lo; ... while (i < hi) { body; ++i; }` with i written nowhere else and no continue: a counted loop"""
+        cond = A.strip(s.get("cond") or {})
+        if cond.get("k") != "BinaryOperator" or cond.get("op") not in ("<", "<=", "!="):
+            return None
+        d = A.declref(cond["c"][0])
+        if d is None or d["decl"] not in self.locals or "init" not in self.locals[d["decl"]]:
+            return None
+        body = s.get("body")
+        if body is None or body.get("k") != "CompoundStmt" or not body.get("c"):
+            return None
+        last = A.strip(body["c"][-1], casts=False)
+        inc = False
+        if last.get("k") == "UnaryOperator" and last.get("op") == "++" and (A.declref(last["c"][0]) or {}).get("decl") == d["decl"]:
+            inc = True
+        if last.get("k") == "CompoundAssignOperator" and last.get("op") == "+=" and (A.declref(last["c"][0]) or {}).get("decl") == d["decl"] and \
+                A.strip(last["c"][1]).get("value") == 1:
+            inc = True
+        if not inc or self.assigned.get(d["decl"], 0) != 1:
+            return None
+        for x in A.walk(body):
+            if x.get("k") == "ContinueStmt":
+                return None
+        # the bound must not change in the body
+        hd = A.declref(cond["c"][1])
+        if hd is not None and hd.get("local", True) and self.assigned.get(hd["decl"], 0) > 0:
+            return None
+        lo = None
+        key = ("while-lo", s["id"])
+        if key not in self.__dict__.setdefault("_memo", {}):
+            self._memo[key] = self._try(self.locals[d["decl"]]["init"])
+        lo = self._memo[key]
+        if lo is None:
+            return None
+        return dict(name=d["name"], decl=d["decl"], lo=lo, hi=cond["c"][1], cmp=cond["op"], body=body["c"][:-1])
+
     def run(self):
         for i in self.fn.get("inits", []):
             if isinstance(i.get("expr"), dict):
@@ -559,9 +906,20 @@ def scan(fn, hooks=(), bind_params=None):
     return Scanner(fn, hooks, bind_params).run()
 
 
-def guard_text(guards):
+def plain_guards(guards):
+    """guards with `if (e == CONST)` given back as the plain condition (for rules that read conditions rather than case labels)"""
     out = []
     for g, pol in guards:
+        if isinstance(g, dict) and g.get("k") == "SwitchCase" and g.get("from_if") is not None:
+            out.append((A.strip(g["from_if"]), pol))
+        else:
+            out.append((g, pol))
+    return out
+
+
+def guard_text(guards):
+    out = []
+    for g, pol in plain_guards(guards):
         if g is None:
             continue
         if g.get("k") == "SwitchCase":
